@@ -16,11 +16,12 @@ for p in selftest/mutants/*.patch seeded/*/patch.diff; do
   git -C /repo worktree add --detach "$tmp/wt" HEAD >/dev/null 2>&1 || { echo "cannot create worktree"; exit 2; }
   # the working tree of /repo may carry uncommitted contract edits: copy them
   (cd /repo && git diff) | (cd "$tmp/wt" && git apply 2>/dev/null)
+  (cd /repo && git ls-files --others --exclude-standard | grep '_verif.go$' | while read f; do mkdir -p "$tmp/wt/$(dirname $f)"; cp "$f" "$tmp/wt/$f"; done)
   if ! git -C "$tmp/wt" apply "$(pwd)/$p"; then echo "SKIP $p (does not apply)"; continue; fi
   n=$((n+1))
   out=$(bin/govc check -prop "$prop" -repo "$tmp/wt" -out "$tmp/out" 2>&1)
-  if echo "$out" | grep -q "^VIOLATION property=$prop"; then
-    echo "ok   $p -> $(echo "$out" | grep -c '^VIOLATION') violation(s): $(echo "$out" | grep '^VIOLATION' | head -1 | sed 's/.*obligation=//' | cut -c1-110)"
+  if echo "$out" | grep "^VIOLATION property=$prop" | grep -qv "obligation=framework-integrity"; then
+    echo "ok   $p -> $(echo "$out" | grep -c '^VIOLATION') violation(s): $(echo "$out" | grep '^VIOLATION' | grep -v framework-integrity | head -1 | sed 's/.*obligation=//' | cut -c1-110)"
   else
     echo "MISS $p (no violation reported for $prop)"; fail=$((fail+1))
   fi
